@@ -1,4 +1,4 @@
-From SV Require Import Model.Common Model.Utf8 Model.Parser.
+From SV Require Import Model.Common Model.Utf8 Model.Parser Model.Composite.
 From Coq Require Import ExtrOcamlBasic.
 Definition run_line_model := run_line run_case_C09.
 Extraction "model.ml" run_line_model.
